@@ -237,7 +237,9 @@ def units(d):
     return ["off-grid", str(d)]
 
 
-def build_impl(case, from_day=None, to_day=None, allow_neg=True):
+def build_impl(case, from_day=None, to_day=None, allow_neg=True, methods=None):
+    """methods: optional dict name -> AccountingMethod instance to reuse (rp2_main builds the method objects once and
+    shares them between all assets of a run)"""
     from harness import impl
     from prezzemolo.avl_tree import AVLTree
     from rp2.accounting_engine import AccountingEngine
@@ -260,7 +262,11 @@ def build_impl(case, from_day=None, to_day=None, allow_neg=True):
     tree = AVLTree()
     for y, m in case["sched"]:
         mod = importlib.import_module(f"rp2.plugin.accounting_method.{m}")
-        tree.insert_node(y, mod.AccountingMethod())
+        if methods is None:
+            inst = mod.AccountingMethod()
+        else:
+            inst = methods.setdefault(m, mod.AccountingMethod())
+        tree.insert_node(y, inst)
     return cfg, AccountingEngine(years_2_methods=tree), input_data
 
 
@@ -302,12 +308,12 @@ def dump(computed, full=True):
     return d
 
 
-def impl_compute(case, from_day=None, to_day=None, allow_neg=True, full=True):
+def impl_compute(case, from_day=None, to_day=None, allow_neg=True, full=True, methods=None):
     """-> {'ok': dump} or {'err': kind, 'msg': text}"""
     from harness import impl
     try:
         from rp2.tax_engine import compute_tax
-        cfg, engine, input_data = build_impl(case, from_day, to_day, allow_neg)
+        cfg, engine, input_data = build_impl(case, from_day, to_day, allow_neg, methods)
         computed = compute_tax(cfg, engine, input_data)
         return {"ok": dump(computed, full)}
     except Exception as exc:  # noqa: BLE001
